@@ -46,8 +46,11 @@ def make_scratch(config, repo=REPO):
     with open(os.path.join(VERIF, "kani", "inject", "manifest.toml"), "rb") as f:
         man = tomllib.load(f)
     injections = []
+    only = os.environ.get("VERIF_ONLY_INJECT")
     for inj in man.get("inject", []):
         if config not in inj.get("configs", ["real", "model"]):
+            continue
+        if only and not any(o in inj["src"] for o in only.split(",")):
             continue
         src = os.path.join(VERIF, "kani", "inject", inj["src"])
         dst = os.path.join(d, inj["dst"])
@@ -65,6 +68,8 @@ def make_scratch(config, repo=REPO):
             injections.append("append `%s` to %s" % (inj["decl"], inj["decl_in"]))
     for ed in man.get("attr", []):
         if config not in ed.get("configs", ["real", "model"]):
+            continue
+        if os.environ.get("VERIF_NO_ATTR"):
             continue
         p = os.path.join(d, ed["file"])
         s = open(p).read()
@@ -89,7 +94,8 @@ def make_scratch(config, repo=REPO):
     s2 = s.replace('tracing = { version = "0.1", features = ["attributes"]', 'tracing = { version = "0.1", features = ["attributes", "max_level_off"]')
     if s2 == s:
         raise RuntimeError("workspace Cargo.toml: tracing dependency line not found")
-    s = s2
+    if not os.environ.get("VERIF_NO_TRACING_OFF"):
+        s = s2
     injections.append("workspace dependency tracing: feature max_level_off added (logging compiled out)")
     s += PROFILE
     injections.append("[profile.dev] debug-assertions=false overflow-checks=false (release semantics)")
@@ -197,6 +203,7 @@ def _wait_with_rss_watchdog(proc, timeout, mem_gb, meta):
             sid = os.getsid(proc.pid)
         except ProcessLookupError:
             continue
+        mine = []
         for pid in os.listdir("/proc"):
             if not pid.isdigit():
                 continue
@@ -211,8 +218,19 @@ def _wait_with_rss_watchdog(proc, timeout, mem_gb, meta):
                 if rss > mem_gb * (1 << 30):
                     os.kill(int(pid), 9)
                     killed.append((int(pid), rss >> 20))
+                else:
+                    mine.append((rss, int(pid)))
             except (OSError, ValueError, IndexError):
                 continue
+        # global guard: all solvers of this run together stay below 50 GB (kill the largest first)
+        mine.sort(reverse=True)
+        while mine and sum(r for r, _ in mine) > 50 * (1 << 30):
+            rss, pid = mine.pop(0)
+            try:
+                os.kill(pid, 9)
+                killed.append((pid, rss >> 20))
+            except OSError:
+                pass
     meta["rss_killed"] = killed
 
 
@@ -252,7 +270,7 @@ def run_harnesses(names, config, crate, features, jobs=8, timeout=3600, extra_ar
         logp = os.path.join(target_dir(config), "last-run.log")
         # every process of the run (each cbmc) is capped; total = jobs * cap stays below the machine's RAM
         if mem_gb is None:
-            mem_gb = max(4.0, min(20.0, 52.0 / max(1, min(jobs, len(names)))))
+            mem_gb = max(10.0, min(20.0, 52.0 / max(1, min(jobs, len(names)))))
         meta["mem_gb_per_process"] = mem_gb
         with open(logp, "w") as lf:
             proc = subprocess.Popen(cmd, cwd=scratch, env=env, stdout=lf, stderr=subprocess.STDOUT, text=True,
